@@ -464,7 +464,11 @@ class AsyncHTTP2Connection(AsyncConnectionInterface):
             self._connection_error = True
             raise exc
 
-        events: list[h2.events.Event] = self._h2_state.receive_data(data)
+        try:
+            events: list[h2.events.Event] = self._h2_state.receive_data(data)
+        except h2.exceptions.ProtocolError as exc:
+            # The peer sent frames that violate the protocol.
+            raise RemoteProtocolError(exc) from exc
 
         return events
 
